@@ -307,7 +307,8 @@ def run(ctx):
         for i, stt in enumerate(la.node.body):
             if any(n is loop for n in ast.walk(stt)) or (loop_owner is not la and contains_call(prog, la, stt, lambda c: attr_call(c, "_protocol", "authenticate"))):
                 idx = i if idx is None else idx
-        ctr = counter_names(loop)
+        from ..retry import loop_budget, loop_env
+        ctr = loop_budget(loop_owner, loop)
         if loop_owner is not la:
             # the counter lives in the helper: the caller passes its own budget parameter
             ctr = [p_ for p_ in la.params if p_ in ("retries",)] or ctr
@@ -319,16 +320,15 @@ def run(ctx):
 
         def on_stmt(s):
             tg = s.targets if isinstance(s, ast.Assign) else []
-            for t in tg:
-                if is_self_attr(t, "_token") or is_self_attr(t, "_key"):
-                    return "store:" + t.attr
-            return None
+            tg = [x for t in tg for x in (t.elts if isinstance(t, (ast.Tuple, ast.List)) else [t])]          # self._token, self._key = token, key
+            evs = ["store:" + t.attr for t in tg if is_self_attr(t, "_token") or is_self_attr(t, "_key")]
+            return evs or None
         pre_stores = [n for stt in la.node.body[:idx] for n in ast.walk(stt) if isinstance(n, ast.Assign) and any(is_self_attr(t, "_token") or is_self_attr(t, "_key") for t in n.targets)]
         ctx.ob("C06.b", la.qual, not pre_stores, "no credential store precedes the handshake loop", func=la.qual, file=file, node=pre_stores[0] if pre_stores else None,
                fail="credentials are cached before the handshake was attempted")
         for R in (1, 2, 3):
             ex = Explorer(prog, la, classify, {ctr[0]: R}, on_stmt=on_stmt)
-            paths = ex.run(la.node.body[idx:], {ctr[0]: R}, ())
+            paths = ex.run(la.node.body[idx:], loop_env(la, loop, ctr[0], R) if loop_owner is la else {ctr[0]: R}, ())
             ctx.count("credential_paths", len(paths))
             for p in paths:
                 tr = p.trace
